@@ -88,6 +88,7 @@ def showState (r : Res) (c : Conn) (sel : Option Data) : String :=
     (if c.zombie then "DEAD" else if c.hasDbapi then showNatList (sortNats c.db.raw.working) else "x"),
     (if c.zombie then toString c.db.raw.rid ++ "!"
      else if c.hasDbapi then toString c.db.raw.rid ++ (if c.db.raw.autocommit then "a" else "")
+        ++ (if c.db.raw.autocommit && !c.db.raw.saves.isEmpty then "t" else "")
         ++ (if c.db.raw.readUnc then "u" else "") else "x"),
     showIdle c.db.idle,
     toString c.warns ]
